@@ -66,8 +66,8 @@ _PACK_ASSUME = _FS_ASSUME + [
 PROPS = {
     "C02": {
         "streams": ["pack", "unpack"],
-        "theorems": "C02_round_trip_files_and_directories (for every tree of regular files and directories of any depth and width, every file system, destination, option set without ignore processing: Pack succeeds and Unpack of its output into an empty directory yields exactly the tree with times rounded to the second; by induction over the tree on both models, 1,300 lines Slug/RoundTrip.v + Slug/RoundTripPack.v), C02_rounding, C02_round_trip_instance (a concrete tree that also has in-tree and dangling links); for all trees incl. links: C05_no_leak_without_dereference, C20_meta_describes_slug, C01_unpack_outside_unchanged",
-        "assumptions": _PACK_ASSUME + ["partial: for trees that contain symbolic links the universally quantified round trip is not a theorem; it is decided per run by (i) correspondence of the Pack model and of the Unpack model with the implementation and (ii) packing, unpacking and comparing trees on the implementation (oracle)"],
+        "theorems": "C02_round_trip (for every tree of regular files, directories and symbolic links that stay inside - relative, non-empty, never climbing above the top of the tree when read from their own directory; dangling, chained and up-and-down links included - of any depth and width, every file system, destination, option set without ignore processing: Pack succeeds and Unpack of its output into an empty directory yields exactly the tree, link targets unchanged, times rounded to the second; by induction over the tree on both models, Slug/RoundTrip.v + Slug/RoundTripPack.v), C02_link_check_is_root_independent (such a link passes validSymlink under every root, which is why Pack and Unpack agree), C02_rounding, C02_round_trip_instance; for all trees: C05_no_leak_without_dereference, C20_meta_describes_slug, C01_unpack_outside_unchanged",
+        "assumptions": _PACK_ASSUME + ["partial: the theorem's hypotheses leave out trees whose links leave the tree and re-enter it by naming its directory, absolute links into the tree, ignore processing and allow-listed external links; those are decided per run by (i) correspondence of the Pack model and of the Unpack model with the implementation and (ii) packing, unpacking and comparing trees on the implementation (oracle)"],
     },
     "C05": {
         "streams": ["pack"],
@@ -106,8 +106,8 @@ PROPS = {
     },
     "C15": {
         "streams": ["unpack"],
-        "theorems": "C15_tree_archive_materialised (every archive listing a tree of regular files and directories, unpacked into an empty directory, yields exactly that tree: contents, permissions, times; directory metadata applied after the contents), C15_unsupported_fails, C15_success_means_all_supported (all entry lists); for arbitrary entry orders, repeats and links the sequential-reading semantics is the executable model itself, compared with the implementation (whole final tree) and with an independent Go reference interpreter; C15_sequential_reading is a concrete instance with repeats",
-        "assumptions": _FS_ASSUME + ["partial: for archives with repeated paths, children before parents, or links, 'the model's unpack equals a declarative last-writer-wins tree' is not proved as a theorem; it is checked per run by the reference interpreter on the implementation"],
+        "theorems": "C15_tree_archive_materialised (every archive listing a tree of regular files, directories and links that stay inside, unpacked into an empty directory, yields exactly that tree: contents, permissions, times, link targets; directory metadata applied after the contents), C15_unsupported_fails, C15_success_means_all_supported (all entry lists); for arbitrary entry orders, repeats and links the sequential-reading semantics is the executable model itself, compared with the implementation (whole final tree) and with an independent Go reference interpreter; C15_sequential_reading is a concrete instance with repeats",
+        "assumptions": _FS_ASSUME + ["partial: for archives with repeated paths, children before parents, or links that leave and re-enter, 'the model's unpack equals a declarative last-writer-wins tree' is not proved as a theorem; it is checked per run by the reference interpreter on the implementation"],
     },
     "C03": {
         "streams": ["ignore", "pack"],
